@@ -35,13 +35,13 @@ def info(tier):
         "level": LEVEL,
         "rule": "strictly convex problems with manufactured KKT optimum (5 families x constrained/unconstrained x bounds "
         "active/inactive x min / max of the negated objective x methods auto, SLSQP, trust-constr, L-BFGS-B, BFGS x "
-        "default / explicit x0); online comparison of every callable evaluation made by the solver (first 25 per callable, "
+        "default / explicit x0); parameterised models (weights starting at 0 / 1) re-solved after Parameter.set(); objectives accumulated over 400+ pair terms with recurring operands; online comparison of every callable evaluation made by the solver (first 25 per callable, "
         "then every 10th) with the jet reference + end-to-end comparison with raw SciPy; distinct = canonical "
         "(problem, method, x0) hashes",
         "required_cells": [f"family:{f}" for f in NG.FAMILIES] + ["sense:min", "sense:max", "method:auto", "method:SLSQP",
                                                                    "method:trust-constr", "method:L-BFGS-B", "method:BFGS",
                                                                    "wiring:fun", "wiring:jac", "wiring:hess", "wiring:cfun", "wiring:cjac",
-                                                                   "wiring:bounds", "wiring:x0", "x0:default", "x0:explicit", "end-to-end", "re-solve", "staged-model"],
+                                                                   "wiring:bounds", "wiring:x0", "x0:default", "x0:explicit", "end-to-end", "re-solve", "staged-model", "parameters:first-solve", "parameters:solve-after-set", "deep-accumulated-objective"],
         "assumptions": [
             "SciPy's solvers are trusted; only optyx's use of them is judged",
             "end-to-end verdicts only where raw SciPy with reference callables itself converges to the manufactured optimum (else non-comparable)",
@@ -305,6 +305,220 @@ def run_problem(prob, method, x0mode, rec, rng, seams):
     rec.sample(show, cap=3)
 
 
+def run_param_history(rec, rng, seams, method):
+    """A strictly convex model with multiplicative Parameters that start at the structural values 0 / 1 (a ridge weight switched off,
+    a unit weight), solved, updated with Parameter.set() and solved again: at every solve each fun / jac evaluation the solver makes
+    is compared with the reference at the *current* parameter values, and the result with raw SciPy on reference callables."""
+    n = 3
+    x = ["vec", "x"]
+    t = [round(rng.choice([-1.5, -0.5, 0.75, 1.25, 2.0]) + 0.125 * i, 3) for i in range(n)]
+    w0, l0 = rng.choice([(1.0, 0.0), (1.0, 1.0), (0.0, 1.0), (2.0, 0.0)])
+    decls = [{"k": "vec", "name": "x", "n": n, "lb": -4.0, "ub": 4.0}, {"k": "par", "name": "w", "val": w0}, {"k": "par", "name": "lam", "val": l0}]
+    d = ["vbin", "-", x, ["arr", t]]
+    spelling = rng.randrange(3)
+    ridge = [["bin", "*", ["par", "lam"], ["dot", x, x]], ["bin", "*", ["dot", x, x], ["par", "lam"]], ["bin", "*", ["par", "lam"], ["sum", ["vpow", x, 2]]]][spelling]
+    fit = [["bin", "*", ["par", "w"], ["dot", d, d]], ["bin", "/", ["dot", d, d], ["bin", "/", ["raw", 1.0, "float"], ["bin", "+", ["par", "w"], ["raw", 1e-9, "float"]]]],
+           ["bin", "*", ["dot", d, d], ["par", "w"]]][spelling]
+    base = ["bin", "*", ["raw", 0.1, "float"], ["sum", ["vfn", "exp", ["vbin", "*", x, ["raw", 0.3, "float"]]]]]
+    fmin = ["bin", "+", ["bin", "+", fit, ridge], base]
+    sense = rng.choice(["min", "max"])
+    obj = fmin if sense == "min" else ["neg", fmin]
+    cons = [["rel", ">=", ["sum", x], ["raw", 0.5, "float"], "direct"]] if rng.random() < 0.6 and method != "L-BFGS-B" else []
+    prob = {"decls": decls, "objective": obj, "sense": sense, "constraints": cons}
+    D = R.Decls(decls)
+    names = [f"x[{i}]" for i in range(n)]
+    rec.case({"param-history": prob, "m": method})
+    show = {"decls": A.render_decls(decls), "objective": A.render(obj), "sense": sense, "constraints": [A.render(c) for c in cons], "method": method}
+    cur = {"w": w0, "lam": l0}
+    state = {"flagged": False, "n": 0}
+
+    def bad(what, **kw):
+        rec.violation(what, {"prob": prob, "method": method, "params": dict(cur), "show": show, **kw})
+
+    def wrap(kind, fn, call):
+        base_kind = kind if isinstance(kind, str) else kind[0]
+        if base_kind not in ("fun", "jac"):
+            return fn
+
+        def wrapped(xx, *a, **k):
+            out = fn(xx, *a, **k)
+            state["n"] += 1
+            if state["flagged"] or state["n"] > 60:
+                return out
+            pt = dict(zip(names, map(float, np.asarray(xx, dtype=float))))
+            j, tr = R.ref_jet(D, fmin, names, pt, order=1, params=cur)
+            if not tr.regular(1e-6, 1e8):
+                return out
+            rec.cmp(1, "wiring:" + base_kind)
+            if base_kind == "fun":
+                if not close(float(out), float(j.v), 1e-9, tr.mag)[0]:
+                    state["flagged"] = True
+                    bad("wiring:fun-differs-from-the-model-at-current-parameters", got=float(out), want=float(j.v), point=pt)
+            else:
+                g = np.asarray(out, dtype=float).reshape(-1)
+                if g.shape != (n,) or not all(close(g[i], float(j.g[i]), 1e-7, max(tr.mag, tr.dmag))[0] for i in range(n)):
+                    state["flagged"] = True
+                    bad("wiring:jac-differs-from-the-model-at-current-parameters", got=g.tolist(), want=[float(v) for v in j.g], point=pt)
+            return out
+
+        return wrapped
+
+    try:
+        b = B.Builder(decls)
+        P = b.problem(prob)
+    except Exception as ex:
+        bad("build-raises:" + type(ex).__name__, error=repr(ex)[:200])
+        return
+    updates = [(2.5, 0.75), (0.5, 2.0), (1.0, 0.0), (3.0, 1.0)]
+    rng.shuffle(updates)
+    for step, upd in enumerate([None] + updates[:2]):
+        if upd is not None:
+            b.params["w"].set(upd[0])
+            b.params["lam"].set(upd[1])
+            cur.update(w=upd[0], lam=upd[1])
+        if cur["w"] + cur["lam"] <= 0:
+            continue
+        state.update(flagged=False, n=0)
+        seams.reset()
+        seams.wrap_callables = wrap
+        try:
+            with warnings.catch_warnings():
+                warnings.simplefilter("ignore")
+                sol = P.solve(method=method)
+        except Exception as ex:
+            bad("solve-raises:" + type(ex).__name__, error=repr(ex)[:200], step=step)
+            return
+        finally:
+            seams.wrap_callables = None
+        rec.cmp(1, "parameters:first-solve" if step == 0 else "parameters:solve-after-set")
+        if state["flagged"]:
+            return
+        # raw SciPy on the reference callables at the current parameters, same start
+        used = seams.min_calls[-1]["method"] if seams.min_calls else method
+        x0 = seams.min_calls[-1]["x0"] if seams.min_calls else np.zeros(n)
+        rf = lambda z: float(R.ref_jet(D, fmin, names, dict(zip(names, map(float, z))), order=1, params=cur)[0].v)  # noqa: E731
+        rg = lambda z: np.array(R.ref_jet(D, fmin, names, dict(zip(names, map(float, z))), order=1, params=cur)[0].g, dtype=float)  # noqa: E731
+        rh = lambda z: np.array(R.ref_jet(D, fmin, names, dict(zip(names, map(float, z))), order=2, params=cur)[0].H, dtype=float)  # noqa: E731
+        rcons = [{"type": "ineq", "fun": lambda z: float(np.sum(z) - 0.5), "jac": lambda z: np.ones(n)}] if cons else ()
+        try:
+            with warnings.catch_warnings():
+                warnings.simplefilter("ignore")
+                raw = seams.orig_minimize(rf, np.array(x0, dtype=float), method=used, jac=rg, hess=rh if used == "trust-constr" else None,
+                                          bounds=[(-4.0, 4.0)] * n if used in BOUNDS_METHODS else None, constraints=rcons)
+        except Exception as ex:
+            rec.noncomp["raw-scipy-raises:" + type(ex).__name__] += 1
+            continue
+        if not raw.success:
+            rec.noncomp["raw-scipy-did-not-converge"] += 1
+            continue
+        rec.cmp(1, "end-to-end")
+        if sol.status.value != "optimal":
+            bad("parameters:raw-scipy-converges-but-optyx-is-" + sol.status.value, step=step, message=sol.message[:120])
+            return
+        xo = np.array([sol.values[nm] for nm in names])
+        if rf(xo) - float(raw.fun) > 1e-5 * (1 + abs(float(raw.fun))) or np.linalg.norm(xo - raw.x) > 2e-3 * (1 + np.linalg.norm(raw.x)):
+            bad("parameters:optimum-differs-from-raw-scipy-at-current-parameters", step=step, f_optyx=rf(xo), f_raw=float(raw.fun), x_optyx=xo.tolist(), x_raw=raw.x.tolist())
+            return
+    rec.sample(show, cap=2)
+
+
+def run_deep_history(rec, rng, seams, method):
+    """An objective accumulated term by term (> 400 terms) in which the same element objects recur as both operands of binary nodes
+    ((x_i - x_j)^2 over all pairs): the callables handed to SciPy are compared with the closed form, the result with raw SciPy."""
+    import optyx
+
+    n = rng.choice([8, 9, 10])
+    pairs = [(i, j) for i in range(n) for j in range(n) if i != j]
+    rng.shuffle(pairs)
+    while len(pairs) < 430:
+        pairs = pairs + pairs
+    pairs = pairs[: rng.choice([410, 430, 470])]
+    dv = [0.25 * ((i * 3 + j) % 5) - 0.5 for i, j in pairs]
+    tgt = np.array([0.5 + 0.25 * i for i in range(n)])
+    rec.case({"deep-history": [n, len(pairs), pairs[:5]], "m": method})
+    x = optyx.VectorVariable("x", n, lb=-5.0, ub=5.0)
+    acc = (x[0] - float(tgt[0])) ** 2
+    for i in range(1, n):
+        acc = acc + (x[i] - float(tgt[i])) ** 2
+    for (i, j), d_ in zip(pairs, dv):
+        acc = acc + 0.01 * (x[i] - x[j] - d_) ** 2 if (i + j) % 3 else acc + 0.01 * (x[i] * x[j])
+    I = np.array([p[0] for p in pairs]); J = np.array([p[1] for p in pairs]); Dv = np.array(dv); sq = np.array([(i + j) % 3 != 0 for i, j in pairs])
+
+    def rf(z):
+        z = np.asarray(z, dtype=float)
+        r = z[I] - z[J] - Dv
+        return float(np.sum((z - tgt) ** 2) + 0.01 * np.sum(np.where(sq, r * r, z[I] * z[J])))
+
+    def rg(z):
+        z = np.asarray(z, dtype=float)
+        g = 2.0 * (z - tgt)
+        r = z[I] - z[J] - Dv
+        np.add.at(g, I, 0.01 * np.where(sq, 2 * r, z[J]))
+        np.add.at(g, J, 0.01 * np.where(sq, -2 * r, z[I]))
+        return g
+
+    show = {"n": n, "terms": len(pairs) + n, "method": method, "objective": "sum (x_i - t_i)^2 + 0.01 * sum_pairs [(x_i - x_j - d)^2 | x_i * x_j], accumulated term by term"}
+    state = {"flagged": False, "k": 0}
+
+    def bad(what, **kw):
+        rec.violation(what, {"deep": show, "method": method, "show": show, **kw})
+
+    def wrap(kind, fn, call):
+        if kind not in ("fun", "jac"):
+            return fn
+
+        def wrapped(xx, *a, **k):
+            out = fn(xx, *a, **k)
+            state["k"] += 1
+            if state["flagged"] or state["k"] > 40:
+                return out
+            z = np.asarray(xx, dtype=float)
+            rec.cmp(1, "wiring:" + kind)
+            if kind == "fun" and not close(float(out), rf(z), 1e-9, 1e3)[0]:
+                state["flagged"] = True
+                bad("deep-objective:fun-differs-from-the-formula", got=float(out), want=rf(z))
+            if kind == "jac":
+                g, w_ = np.asarray(out, dtype=float).reshape(-1), rg(z)
+                if g.shape != w_.shape or not all(close(a_, b_, 1e-7, 1e3)[0] for a_, b_ in zip(g, w_)):
+                    state["flagged"] = True
+                    bad("deep-objective:jac-differs-from-the-formula", got=g.tolist(), want=w_.tolist())
+            return out
+
+        return wrapped
+
+    P = optyx.Problem().minimize(acc).subject_to(x.sum() >= 1.0)
+    seams.reset()
+    seams.wrap_callables = wrap
+    try:
+        with warnings.catch_warnings():
+            warnings.simplefilter("ignore")
+            sol = P.solve(method=method, **({"maxiter": 300} if method == "trust-constr" else {}))
+    except Exception as ex:
+        bad("deep-objective:solve-raises:" + type(ex).__name__, error=repr(ex)[:200])
+        return
+    finally:
+        seams.wrap_callables = None
+    rec.cmp(1, "deep-accumulated-objective")
+    if state["flagged"]:
+        return
+    x0 = seams.min_calls[-1]["x0"] if seams.min_calls else np.zeros(n)
+    used = seams.min_calls[-1]["method"] if seams.min_calls else method
+    with warnings.catch_warnings():
+        warnings.simplefilter("ignore")
+        raw = seams.orig_minimize(rf, np.array(x0, dtype=float), method="SLSQP", jac=rg, bounds=[(-5.0, 5.0)] * n,
+                                  constraints=[{"type": "ineq", "fun": lambda z: float(np.sum(z) - 1.0), "jac": lambda z: np.ones(n)}])
+    if not raw.success:
+        rec.noncomp["raw-scipy-did-not-converge"] += 1
+        return
+    rec.cmp(1, "end-to-end")
+    if sol.status.value != "optimal":
+        bad("deep-objective:raw-scipy-converges-but-optyx-is-" + sol.status.value, message=sol.message[:120], used=used)
+        return
+    xo = np.array([sol.values[f"x[{i}]"] for i in range(n)])
+    if rf(xo) - float(raw.fun) > 1e-5 * (1 + abs(float(raw.fun))):
+        bad("deep-objective:optimum-differs-from-raw-scipy", f_optyx=rf(xo), f_raw=float(raw.fun))
+
+
 COMBOS = [(fam, True, m) for fam in NG.FAMILIES for m in ("auto", "SLSQP", "trust-constr")] + \
          [(fam, False, m) for fam in NG.FAMILIES for m in ("auto", "L-BFGS-B", "BFGS", "SLSQP", "trust-constr")]
 
@@ -327,6 +541,10 @@ def run(ctx, rec):
             n += 1
             prob = NG.draw_convex(rng, family=fam, constrained=constrained, bounds=bounds, sense=["min", "max"][n % 2])
             run_problem(prob, method, "explicit" if n % 3 == 0 else "default", rec, rng, seams)
+            if n % 4 == 0:
+                run_param_history(rec, rng, seams, ["SLSQP", "trust-constr", "auto", "L-BFGS-B"][(n // 4 + ctx.shard) % 4])
+            if n % 20 == 10:
+                run_deep_history(rec, rng, seams, ["SLSQP", "trust-constr", "auto"][(n // 20 + ctx.shard) % 3])
     finally:
         seams.uninstall()
 
